@@ -446,7 +446,15 @@ func thriftType(i int) thrift.TMessageType { return thrift.TMessageType(i) }
 
 // genFrameID is genFrame with an optional forced request id (used for variable-width id fields).
 func genFrameID(rng *lab.Rand, codecName string, maxBody int, forceID *uint64) refFrame {
+	return genFrameKind(rng, codecName, maxBody, forceID, -1)
+}
+
+// genFrameKind is genFrameID with an optional forced kind (-1 = drawn).
+func genFrameKind(rng *lab.Rand, codecName string, maxBody int, forceID *uint64, forceKind int) refFrame {
 	kind := []int{kindRequest, kindRequest, kindOneway, kindResponse, kindResponse, kindHeartbeat, kindHeartbeatAck}[rng.Intn(7)]
+	if forceKind >= 0 {
+		kind = forceKind
+	}
 	rf := refFrame{Codec: codecName, Kind: kind, IDOff: -1}
 	switch codecName {
 	case "bolt", "boltv2":
@@ -640,4 +648,12 @@ func truncate(s string, n int) string {
 		return s[:n]
 	}
 	return s
+}
+
+func sortInts(a []int) {
+	for i := 1; i < len(a); i++ {
+		for j := i; j > 0 && a[j] < a[j-1]; j-- {
+			a[j], a[j-1] = a[j-1], a[j]
+		}
+	}
 }
